@@ -49,7 +49,7 @@ COMPONENTS = {
     "real": ["ExternalOptimizer.start/_handle_request", "_PluginOptimizer.run/_request/_callback", "_JSONPipeCommunicator", "EnsembleOptimizer", "SciPy plug-in + scipy.optimize in the child (45%)", "config dump -> JSON -> re-validation"],
     "stub": ["SimKernel (FIFOs, selector, process table, signals, clock, scheduler)", "sim/scripted optimizer in the child (55%)", "SimEvaluator"],
 }
-PROBES = ["evaluator_interrupts", "numpy_array_option", "numpy_scalar_option", "config_with_path_field", "explicit_start_point", "delimiter_straddles_boundary", "kill_right_after_message", "evaluator_raised_with_dead_child", "equality_compared", "kill_child", "kill_while_parent_evaluating", "child_raises", "child_exits_nonzero", "evaluator_raises",
+PROBES = ["optimizer_object_restarted", "restart_after_failed_start", "evaluator_interrupts", "numpy_array_option", "numpy_scalar_option", "config_with_path_field", "explicit_start_point", "delimiter_straddles_boundary", "kill_right_after_message", "evaluator_raised_with_dead_child", "equality_compared", "kill_child", "kill_while_parent_evaluating", "child_raises", "child_exits_nonzero", "evaluator_raises",
           "evaluator_aborts", "max_functions", "stall", "spawn_fails", "small_pipe", "short_write", "large_message_runs",
           "messages_exchanged", "child_dead_checked", "real_scipy_child", "simulated_seconds"]
 REAL = ["slsqp", "l-bfgs-b", "cobyla", "nelder-mead", "differential_evolution"]
@@ -144,6 +144,25 @@ def _group_scenario(gseed: int, large: bool) -> dict:
 def generate(seed: int, index: int, tier: str) -> dict:
     batch = int(os.environ.get("VERIF_SEED", "0"))
     group = index // GROUP
+    if group % 10 == 6 and index % GROUP < 4:
+        # one EnsembleOptimizer object with an external/<method> back-end started three times; in one of the starts an
+        # evaluation fails for every realization (that start ends with TOO_FEW_REALIZATIONS): each start is a run of
+        # its own, like with the in-process back-end
+        for salt in range(50):
+            scn = _group_scenario(run_seed(batch, PROP + f"-restart{salt}", group), large=False)
+            if scn["backend"] == "scripted":
+                break
+        cfg = scn["configs"][0]
+        cfg["realizations"]["realization_min_success"] = 1
+        cfg["optimizer"].get("options", {}).pop("allow_nan", None)
+        scn["faults"] = []
+        scn["fault"] = None
+        scn["starts"] = [[float(v) for v in cfg["variables"]["initial_values"]]] * 3
+        scn["entry"] = "optimizer_object_restarts"
+        scn["fail_call"] = index % GROUP
+        scn["member"] = 0
+        scn["stratum"] = "optimizer-object-restarted"
+        return scn
     scn = _group_scenario(run_seed(batch, PROP + "-group", group), large=(group % 4 == 3))
     scn["member"] = index % GROUP
     scn["stratum"] = ("large/" if scn["large"] else "") + scn["backend"]
@@ -226,7 +245,53 @@ def _outcome(ctx) -> tuple:
     return ex
 
 
+def _execute_restarts(scn: dict) -> dict:
+    viol: list[dict] = []
+    probes = {"optimizer_object_restarted": 1}
+    base = copy.deepcopy(scn)
+    ref0 = harness.run_scenario(copy.deepcopy(base))
+    ncalls = len(ref0.evaluator.calls)
+    if ncalls:
+        base["faults"] = [{"kind": "nan", "eval": scn["fail_call"] % ncalls, "real": None, "pert": None, "col": None}]
+    inproc = harness.run_scenario(copy.deepcopy(base))
+    k, parent, holder = run_external(base, [])
+    ext = holder.get("ctx")
+    if parent.exc is not None if hasattr(parent, "exc") else False:
+        raise RuntimeError(f"external restart scenario raised in the simulated parent: {parent.exc!r}")
+    compared = 0
+    if ext is not None:
+        compared = 1
+        if any(e[0] == "ret" and e[2] == int(OptimizerExitCode.TOO_FEW_REALIZATIONS) for e in inproc.exits):
+            probes["restart_after_failed_start"] = 1
+        a = [tuple(e) for e in inproc.exits]
+        b = [tuple(e) for e in ext.exits]
+        ca = [(c.kind, c.variables.tobytes()) for c in inproc.evaluator.calls]
+        cb = [(c.kind, c.variables.tobytes()) for c in ext.evaluator.calls]
+        if a != b or ca != cb:
+            viol.append({"clause": "external-run-differs-from-in-process", "sig": {"fault": "none", "backend": "restart"},
+                         "detail": f"one optimizer object started {len(scn['starts'])} times, evaluation {base['faults'][0]['eval'] if base.get('faults') else None} "
+                                   f"failing for every realization: in-process starts ended {a} after {len(ca)} evaluator calls, "
+                                   f"external starts ended {b} after {len(cb)} evaluator calls"})
+        child_alive = [p for p in k.procs.values() if p.name == "child" and not p.dead]
+        if child_alive:
+            viol.append({"clause": "child-left-running", "sig": {"entry": "restart"}, "detail": f"{len(child_alive)} optimizer process(es) alive after the last start"})
+    return {
+        "violations": _dedupe(viol),
+        "nontrivial": compared > 0 and len(inproc.exits) >= 2,
+        "key": oracles.scenario_key(scn, ("restart", scn["fail_call"])),
+        "probes": probes,
+        "fired": dict(inproc.evaluator.fired),
+        "digest": harness.trace_digest(inproc) + (harness.trace_digest(ext) if ext is not None else ""),
+        "evals": len(inproc.evaluator.calls),
+        "events": 0,
+        "stratum": scn.get("stratum"),
+        "summary": {"inproc": [list(e) for e in inproc.exits], "external": None if ext is None else [list(e) for e in ext.exits]},
+    }
+
+
 def execute(scn: dict) -> dict:
+    if scn.get("entry") == "optimizer_object_restarts":
+        return _execute_restarts(scn)
     viol: list[dict] = []
     probes: dict[str, int] = {}
 
